@@ -80,7 +80,7 @@ def run(pkg, pid, tier, seed):
         "deviation_runs": {k: n for _, _, vb in batches for k, n in vb["deviations"].items()},
         "tlc_trace_states": sum(vb["tlc_states"] for _, _, vb in batches),
         "builds": [{"features": f or "default", "runs": s["runs"], "distinct": s.get("distinct"), "bad_runs": s.get("bad_runs", 0),
-                    "dfs_exhausted": s.get("dfs_exhausted")} for f, s, _ in batches],
+                    "dfs_exhausted": s.get("dfs_exhausted"), "exhaustive_dfs_runs": s.get("exhaustive_runs")} for f, s, _ in batches],
         "mc_configs": [{"cfg": m["cfg"], "states": m["states"], "transitions": m["transitions"], "wall_s": m["wall_s"]} for m in mcs],
         "mc_actions_covered": sorted(covered),
         "exhaustive": False,
